@@ -30,6 +30,8 @@ type CoreInput struct {
 	Random     int         `json:"random"`     // number of additional random-driver runs (trace recording)
 	RandomLen  int         `json:"random_len"` // steps per random run
 	TraceOut   string      `json:"trace_out"`
+	LoadLimits bool        `json:"load_limits"` // C15: limited loads of every replica's persisted log
+	Snapshots  bool        `json:"snapshots"`   // C13: save / load snapshot of every replica
 	FinalSync  bool        `json:"final_sync"` // after the last step, sync everyone to everything and compare pairwise
 	Keys       []string    `json:"keys"`
 	Vals       []string    `json:"vals"`
@@ -515,6 +517,9 @@ func coreCmd(args []string) int {
 			sig = append(sig, st.Action)
 			res.Stats["action_"+st.Action]++
 			run.compare(st.State)
+		}
+		if in.LoadLimits {
+			run.loadLimits()
 		}
 		if in.FinalSync {
 			run.finalSync()
